@@ -45,6 +45,9 @@ CHECKS["C10"] = ("two-phase differential property-based testing (proptest): the 
 CHECKS["C04"] = ("property-based testing with fault injection (proptest): pathological right-hand sides and injected NaN/inf under a deterministic evaluation budget",
          "Generated blow-up / stiff / discontinuous problems and benign problems whose right-hand side turns non-finite at a generated time, through an instrumented IVP that aborts the run after 2e6 evaluations: termination is decided by a deterministic work count, panics are caught, Success with non-finite states is rejected.",
          "Budget 2e6 evaluations vs <=1.2e5 observed; RK4 only required to terminate.", "DESIGN.md §4 C04")
+CHECKS["C13"] = ("metamorphic property-based testing (proptest): time reflection, power-of-two scaling, scalar-vs-vector tolerance, independent copies; bit-identity where the symmetry is exact in floating point",
+         "Each generated problem is solved together with its transformed twin; the relations are exact in IEEE arithmetic (negation, multiplication by 2^k, duplication), so for explicit methods and user-Jacobian implicit ones any difference in a single bit is a counterexample.",
+         "R4 only with first_step given; Radau/BDF under R4 and FD-Jacobian scaling only to tolerance (documented in DESIGN).", "DESIGN.md §4 C13")
 PENDING = {}
 
 def main():
